@@ -2,7 +2,7 @@
    machine over (buf, i, number of shuffles so far); the step count comes from the
    translated `_num_steps` computation (gen/Gen_client_datasets.v). *)
 From Coq Require Import ZArith List Bool Arith.
-From FV Require Import Common.ListX gen.Gen_client_datasets.
+From FV Require Import Common.ListX Common.PySem gen.Gen_client_datasets.
 Import ListNotations.
 
 Section Model.
@@ -59,4 +59,24 @@ Definition C04_agree (c : C04_case) (o : C04_obs) : bool :=
   | Some None =>     (* both None: infinite stream, the harness observed a prefix *)
       list_beq lnat_eqb (batches (oracle c) (c_n c) (length o) (Z.to_nat (c_bs c))) o
   | None => false
+  end.
+
+(* ---- exhaustive sweep of the batch-count computation (wave 5) ----
+   CCount n bshi ehi: for a dataset of n rows, every batch size 1..bshi, every num_epochs
+   1..ehi and drop_remainder = false, true (in this order) the number of steps the view
+   computed was observed (num_steps = None); the model recomputes each with the translated
+   `shuffle_num_steps`. *)
+Inductive C04_anycase := CSingle (c : C04_case) | CCount (n bshi ehi : Z).
+Inductive C04_anyobs := OSingle (o : C04_obs) | OCount (counts : list Z).
+
+Definition count_grid (n bshi ehi : Z) : list Z :=
+  flat_map (fun bs => flat_map (fun e => map (fun drop =>
+      match shuffle_num_steps n bs (Some e) None drop with Some (Some k) => k | _ => -1 end)
+    [false; true]) (py_range 1 (ehi + 1) 1)) (py_range 1 (bshi + 1) 1).
+
+Definition C04_agree_any (c : C04_anycase) (o : C04_anyobs) : bool :=
+  match c, o with
+  | CSingle c, OSingle o => C04_agree c o
+  | CCount n bshi ehi, OCount counts => list_beq Z.eqb (count_grid n bshi ehi) counts
+  | _, _ => false
   end.
